@@ -680,3 +680,192 @@ register(canary_set_prototype_never_refuses, id="C08.canary.setPrototypeOf", pro
          target=closure("microjs.context", "Context._create_object_constructor", "set_prototype_of"),
          native=_native_set_prototype_of, heap_inputs=True, canary=True,
          invariants={("microjs.context:Context._create_object_constructor.<set_prototype_of>", "isinstance(ancestor, JSObject)"): inv_set_prototype_of})
+
+
+# ---- call protocols: which `this` a call form hands to the callee -----------------------------------------------------
+@effectful
+def spec_invoke(vm, func, args, this_val, is_constructor=False, new_target=None):
+    """callee contract of VM._invoke_js_function used here: records how it is entered"""
+    ghost_set("invoke.func", func)
+    ghost_set("invoke.this", this_val)
+    ghost_set("invoke.args", args)
+    ghost_set("invoke.ctor", is_constructor)
+    ghost_set("invoke.new_target", new_target)
+    ghost_set("invoke.calls", ghost_get("invoke.calls", 0) + 1)
+    return None
+
+
+def _vm_recording_invoke(name):
+    def make():
+        from microjs.vm import VM
+        import pyvc.api as A
+        real = getattr(VM, name)
+
+        def run(vm, *args):
+            orig = VM._invoke_js_function
+
+            def rec(self, func, a, this_val, is_constructor=False, new_target=None):
+                A.GHOST.update({"invoke.func": func, "invoke.this": this_val, "invoke.args": a, "invoke.ctor": is_constructor,
+                                "invoke.new_target": new_target, "invoke.calls": A.GHOST.get("invoke.calls", 0) + 1})
+                return None
+            VM._invoke_js_function = rec
+            try:
+                return real(vm, *args)
+            finally:
+                VM._invoke_js_function = orig
+        return run
+    return make
+
+
+def c_call_method(vm: Obj("VM"), method: Obj("JSFunction"), this_val: JSVal, args: ValList):
+    """o.m(...) / o[k](...): the callee runs with the receiver as this and exactly the given arguments"""
+    r = outcome(REAL, vm, method, this_val, args)
+    check("never-raises", r[0] == "ret")
+    check("enters-the-callee-once", ghost_get("invoke.calls", 0) == 1 and same_ref(ghost_get("invoke.func", None), method))
+    check("this-is-the-receiver", ghost_get("invoke.calls", 0) == 1 and same_value(ghost_get("invoke.this", None), this_val))
+    check("arguments-are-passed-on", ghost_get("invoke.calls", 0) == 1 and same_ref(ghost_get("invoke.args", None), args))
+    check("not-a-construction", ghost_get("invoke.ctor", True) is False)
+
+
+register(c_call_method, id="C08.VM._call_method", prop="C08", target=method("microjs.vm", "VM._call_method"),
+         native=_vm_recording_invoke("_call_method"), summaries={"microjs.vm:VM._invoke_js_function": spec_invoke}, prim_args=False)
+
+
+def c_call_function(vm: Obj("VM"), base: ValList, callee: Obj("JSFunction"), a0: JSVal, a1: JSVal):
+    """f(...): a plain call runs the callee with this = undefined (strict-mode functions), arguments in source order"""
+    n = NARGS
+    vm.stack = base + [callee] + [a0, a1][:n]
+    r = outcome(REAL, vm, n, None)
+    check("never-raises", r[0] == "ret")
+    check("enters-the-callee-once", ghost_get("invoke.calls", 0) == 1 and same_ref(ghost_get("invoke.func", None), callee))
+    check("this-is-undefined", ghost_get("invoke.calls", 0) == 1 and same_ref(ghost_get("invoke.this", None), UNDEFINED))
+    got = ghost_get("invoke.args", None)
+    if ghost_get("invoke.calls", 0) == 1:
+        check("arguments-in-order", len(got) == n and (n < 1 or same_value(got[0], a0)) and (n < 2 or same_value(got[1], a1)))
+    check("operands-consumed", vm.stack == base)
+
+
+for _n in (0, 1, 2):
+    register(c_call_function, id=f"C08.VM._call_function.{_n}-args", prop="C08", target=method("microjs.vm", "VM._call_function"),
+             native=_vm_recording_invoke("_call_function"), summaries={"microjs.vm:VM._invoke_js_function": spec_invoke}, bind={"NARGS": _n}, prim_args=False)
+
+
+@recursive
+def spec_bound_target(f) -> "JSFunction":
+    """[[BoundTargetFunction]] followed to the end (measure: length of the bind chain)"""
+    if hasattr(f, "_original_func"):
+        return spec_bound_target(f._original_func)
+    return f
+
+
+def inv_new_target(constructor, target):
+    return isinstance(target, JSFunction) and same_ref(spec_bound_target(target), spec_bound_target(constructor))
+
+
+def c_new_object(vm: Obj("VM"), base: ValList, ctor: Obj("JSFunction"), a0: JSVal, objproto: Obj("JSObject"), objctor: Obj("JSCallableObject")):
+    """new F(...): a fresh object linked to the CURRENT F.prototype of the (bound) target -- Object.prototype when that
+    is not an object --, handed to the constructor as this and as new_target, with is_constructor set"""
+    n = NARGS
+    vm.globals = {"Object": objctor}
+    objctor._prototype = objproto
+    target = spec_bound_target(ctor)
+    assume(isinstance(target, JSFunction))
+    vm.stack = base + [ctor] + [a0][:n]
+    snap = heap_snapshot()
+    r = outcome(REAL, vm, n)
+    if hasattr(target, "_lexical_this"):
+        check("arrow-is-not-a-constructor", exc_in(r, ("JSTypeError",)))
+    else:
+        check("never-raises", r[0] == "ret")
+        check("enters-the-constructor-once", ghost_get("invoke.calls", 0) == 1 and same_ref(ghost_get("invoke.func", None), ctor))
+        this = ghost_get("invoke.this", None)
+        check("this-is-a-new-object", isinstance(this, JSObject) and not same_ref(this, objproto))
+        check("new_target-is-that-object", same_ref(ghost_get("invoke.new_target", None), this) and ghost_get("invoke.ctor", False) is True)
+        if isinstance(this, JSObject):
+            p = target._prototype if hasattr(target, "_prototype") else None
+            if isinstance(p, JSObject):
+                check("linked-to-the-current-prototype", same_ref(this._prototype, p))
+            else:
+                check("non-object-prototype-falls-back-to-Object.prototype", same_ref(this._prototype, objproto))
+        check("operands-consumed", vm.stack == base)
+
+
+for _n in (0, 1):
+    register(c_new_object, id=f"C08.VM._new_object.{_n}-args", prop="C08", target=method("microjs.vm", "VM._new_object"),
+             native=None, summaries={"microjs.vm:VM._invoke_js_function": spec_invoke}, bind={"NARGS": _n}, prim_args=False,
+             field_types={"JSFunction._original_func": "JSFunction"},      # bind_fn stores the function it was created for
+             invariants={("microjs.vm:VM._new_object", "hasattr(target, '_original_func')"): inv_new_target})
+
+
+# ---- RETURN from a constructor call honours an object result -----------------------------------------------------------
+@effectful
+def spec_discard_frame_state(vm, frame):
+    """callee contract used here (its own contract belongs to C02): truncates the operand stack to the frame's base"""
+    vm.stack = vm.stack[:frame.bp]
+    return None
+
+
+def c_return(vm: Obj("VM"), frame: Obj("CallFrame"), outer: Obj("CallFrame"), base: ValList, result: JSVal, nt: Obj("JSObject"), is_ctor: Bool):
+    """RETURN: a constructor call yields the returned value when it is an object or a function, otherwise the new object;
+    an ordinary call yields the returned value; the frame is popped and the value lands on the caller's operands"""
+    frame.is_constructor_call = is_ctor
+    frame.new_target = nt
+    frame.bp = len(base)
+    vm.call_stack = [outer, frame]
+    vm.stack = base + [result]
+    o = outcome(REAL, vm, OP, None, frame)
+    check("completes", o[0] == "ret")
+    want_result = HAS_VALUE and ((not is_ctor) or isinstance(result, (JSObject, JSFunction)))
+    check("frame-popped", len(vm.call_stack) == 1)
+    check("one-value-for-the-caller", len(vm.stack) == len(base) + 1 and vm.stack[:len(base)] == base)
+    if len(vm.stack) == len(base) + 1:
+        v = vm.stack[len(base)]
+        if want_result:
+            check("value.is-the-returned-value", same_value(v, result))
+        elif is_ctor:
+            check("value.is-the-new-object", same_ref(v, nt))
+        else:
+            check("value.is-undefined", same_ref(v, UNDEFINED))
+
+
+for _op, _hv in (("RETURN", True), ("RETURN_UNDEFINED", False)):
+    register(c_return, id=f"C08.op.{_op}", prop="C08", target=opcode(_op), native=None, prim_args=False,
+             summaries={"microjs.vm:VM._discard_frame_state": spec_discard_frame_state}, bind={"OP": OpCode[_op], "HAS_VALUE": _hv})
+
+
+# ---- K3: facts the heap contracts rely on -------------------------------------------------------------------------------
+@groups.group(id="C08.struct", prop="C08", kind="K3", functions=["microjs.values:JSObject", "microjs.vm:VM._execute_opcode[MAKE_CLOSURE]", "microjs.vm:VM._invoke_js_function"])
+def c08_struct(tier="quick", seed=0):
+    from pyvc import structural as S
+    import ast
+    out = []
+    # A-SEP: the property dictionaries of an object are never shared: every assignment to these fields in the package
+    # stores a fresh dictionary (a display, dict(), dict.fromkeys(...)) or None
+    bad = []
+    n = 0
+    for mod, mi in S.source().modules.items():
+        for a in ast.walk(mi.tree):
+            tgt = None
+            if isinstance(a, ast.Assign) and len(a.targets) == 1:
+                tgt, val = a.targets[0], a.value
+            elif isinstance(a, ast.AnnAssign) and a.value is not None:
+                tgt, val = a.target, a.value
+            if isinstance(tgt, ast.Attribute) and tgt.attr in ("_properties", "_getters", "_setters", "_key_order"):
+                n += 1
+                fresh = isinstance(val, ast.Dict) or (isinstance(val, ast.Constant) and val.value is None) or \
+                    (isinstance(val, ast.Call) and ast.unparse(val.func) in ("dict", "dict.fromkeys"))
+                if not fresh:
+                    bad.append(f"{mod}:{a.lineno} {ast.unparse(a)[:60]}")
+    out.append(ob("C08.struct.property-dictionaries-are-never-shared", not bad and n >= 4, "K3",
+                  f"{n} assignments to _properties/_getters/_setters/_key_order, all of fresh dictionaries" if not bad else f"shared or foreign dictionary stored: {bad}"))
+    # arrow functions: lexical this is captured where the closure is made and applied after bound-function resolution
+    mk = ast.unparse(S.fn("microjs.vm", "VM._execute_opcode"))
+    inv = ast.unparse(S.fn("microjs.vm", "VM._invoke_js_function"))
+    ok = "js_func._lexical_this = frame.this_value" in mk and "is_arrow" in mk
+    out.append(ob("C08.struct.arrow-captures-this-at-creation", ok, "K3", "MAKE_CLOSURE stores frame.this_value on closures of arrow functions"))
+    i_bound, i_lex = inv.find("_original_func"), inv.find("this_val = func._lexical_this")
+    out.append(ob("C08.struct.arrow-this-overrides-call-this", 0 <= i_bound < i_lex, "K3",
+                  "_invoke_js_function replaces this by the captured one after resolving bound functions (so call/apply/bind cannot change it)"))
+    comp = ast.unparse(S.fn("microjs.compiler", "Compiler._compile_arrow_function"))
+    out.append(ob("C08.struct.arrow-flag-set-by-compiler", "is_arrow=True" in comp, "K3", "_compile_arrow_function marks the compiled function as an arrow"))
+    return out
